@@ -80,6 +80,7 @@ func cmdCheck(w *World, args []string, tier string, verbose bool) int {
 		return 2
 	}
 	prop := args[0]
+	deriveMeasures = prop == "C05"
 	start := time.Now()
 	timeout := 10
 	if tier == "thorough" {
